@@ -72,6 +72,18 @@ def r1_r2(ctx: Ctx, d: Decider) -> Set[str]:
                       f'`continue` under {sorted(g)}: a matching rule is skipped before its tags are collected', s)
     if n_exits == 0:
         ctx.ok('C02.R1', d.fi, 'no break/return in the rule loop', d.loop, 'early-exit:none')
+    # after the loop the collected tags leave with every result: a `return (…, None)` (no match info, hence no tags) is only reached when nothing was collected
+    if d.kind == 'legacy':
+        carriers = [n for n in ast.walk(d.fi.node) if isinstance(n, ast.Dict) and any(isinstance(k, ast.Constant) and k.value == 'tags' for k in n.keys)]
+        tvars = {v.id for n in carriers for k, v in zip(n.keys, n.values) if isinstance(k, ast.Constant) and k.value == 'tags' and isinstance(v, ast.Name)}
+        bare = [r for r in cfg.stmts() if isinstance(r, ast.Return) and not d.in_loop(r) and isinstance(r.value, ast.Tuple) and r.value.elts
+                and isinstance(r.value.elts[-1], ast.Constant) and r.value.elts[-1].value is None and r.lineno > d.loop.lineno]
+        if tvars and bare:
+            for r in bare:
+                g = d.guard_texts(r)
+                ok = any((t, False) in g for t in tvars)
+                ctx.check(ok, 'C02.R1', d.fi, 'tags-leave-with-result', 'a result without match info is returned only when no tag was collected',
+                          f'{src(r)[:60]!r} is reached under {sorted(g)}: a transaction matched by tag-only rules alone loses the tags collected for it', r)
     # tag collection statements
     grows = []
     for n in ast.walk(d.loop):
@@ -260,6 +272,37 @@ def r3_normal_form(ctx: Ctx) -> None:
                          ': a whitespace-only item yields the empty tag \'\'', n)
 
 
+def candidate_conds(d, s, cand):
+    """What every candidate of the selection statement s is known to satisfy: the conjuncts of the comprehension's conditions (`a and b` gives
+    a, b; `a or b` gives nothing about a or b), also of the list the candidates are drawn from when that was itself filtered (computed once,
+    then narrowed per field).  None when the candidate list is not a comprehension."""
+    from ..cfg import conj_atoms
+    filt = None
+    if isinstance(cand, ast.Name):
+        for dn in d.cfg.defs_reaching(s, cand.id):
+            if dn == 'param':
+                continue
+            ds = d.cfg.stmt[dn]
+            if isinstance(ds, ast.Assign) and isinstance(ds.value, (ast.ListComp, ast.GeneratorExp)):
+                filt = ds.value
+    elif isinstance(cand, (ast.ListComp, ast.GeneratorExp)):
+        filt = cand
+    if filt is None:
+        return None
+    cond_nodes = [c for g in filt.generators for c in g.ifs]
+    for g_ in filt.generators:
+        if isinstance(g_.iter, ast.Name):
+            for dn in d.cfg.defs_reaching(s, g_.iter.id):
+                if dn != 'param':
+                    uv = getattr(d.cfg.stmt[dn], 'value', None)
+                    if isinstance(uv, (ast.ListComp, ast.GeneratorExp)):
+                        cond_nodes += [c for g2 in uv.generators for c in g2.ifs]
+    return [src(a_) for c in cond_nodes for a_, tr_ in conj_atoms(c, True) if tr_ and not isinstance(a_, ast.BoolOp)]
+
+
+CANDIDATE_CONDS = {}          # id(selection statement) -> (fields it feeds, conjuncts every candidate satisfies); read by C09.R1
+
+
 # --------------------------------------------------------------------------- R4
 def r4_neutrality(ctx: Ctx, eng: Decider) -> None:
     d = eng
@@ -289,33 +332,14 @@ def r4_neutrality(ctx: Ctx, eng: Decider) -> None:
             fed |= _fields_fed(d, s, tname)
         if not fed:
             continue
-        # candidate list definition
-        filt = None
-        if isinstance(cand, ast.Name):
-            for dn in d.cfg.defs_reaching(s, cand.id):
-                if dn == 'param':
-                    continue
-                ds = d.cfg.stmt[dn]
-                if isinstance(ds, ast.Assign) and isinstance(ds.value, (ast.ListComp, ast.GeneratorExp)):
-                    filt = ds.value
-        elif isinstance(cand, (ast.ListComp, ast.GeneratorExp)):
-            filt = cand
-        if filt is None:
+        conds = candidate_conds(d, s, cand)
+        if conds is None:
             ctx.unknown('C02.R4', d.fi, f'candidate list of {src(s)[:50]!r} is not a comprehension over the matching rules', s)
-        conds = [src(c) for g in filt.generators for c in g.ifs]
-        # candidates drawn from a list that was itself filtered on has-category (computed once, then narrowed per field)
-        for g_ in filt.generators:
-            if isinstance(g_.iter, ast.Name):
-                for dn in d.cfg.defs_reaching(s, g_.iter.id):
-                    if dn != 'param':
-                        uv = getattr(d.cfg.stmt[dn], 'value', None)
-                        if isinstance(uv, (ast.ListComp, ast.GeneratorExp)):
-                            conds += [src(c) for g2 in uv.generators for c in g2.ifs]
-        has_cat = any(('is_categorization_rule' in c or '.category' in c) and 'subcategory' not in c.replace('.subcategory', '') or 'is_categorization_rule' in c for c in conds)
         has_cat = any('is_categorization_rule' in c or _reads_attr(c, 'category') for c in conds)
         for fld in sorted(fed):
             ctx.check(has_cat, 'C02.R4', d.fi, f'candidates:{fld}', f'{fld} winner chosen among rules with a category ({conds})',
                       f'{fld} winner is chosen among {conds or "all matching rules"}: a tag-only rule can set the {fld} of a transaction', s)
+        CANDIDATE_CONDS[id(s)] = (sorted(fed), conds)
     # first_match winner: C01.R2 (has-category guard) – re-stated here as an obligation
     g_ok = False
     for s in d.cfg.stmts():
